@@ -111,7 +111,7 @@ def check_C13(run):
         "panics are observed with recover(); a Go runtime fatal error (stack overflow) would abort the harness and be reported as broken machinery",
     ]
     d = run.sub("gen_json")
-    out, rc, secs = run.tlc(d, "GenJson", GENJSON_CFG % run.tier, workers=1, timeout=1800, seed=run.seed, xss=True)
+    out, rc, secs = run.tlc(d, "GenJson", GENJSON_CFG % run.tier, workers=1, timeout=3600, seed=run.seed, xss=True)
     m = re.search(r'"GENERATED (.*)"', out)
     if not m:
         raise Broken("GenJson failed: " + (run.tlc_error(out) or out[-600:]))
